@@ -78,7 +78,8 @@ def _register():
 def plan(tier, seed):
     return [{'space': 'table', 'cls': c, 'weight': 1} for c in CLASSES] + \
         [{'space': 'context', 'weight': 1},
-         {'space': 'alternating', 'weight': 1}]
+         {'space': 'alternating', 'weight': 1},
+         {'space': 'scope-toggle', 'weight': 1}]
 
 
 def expected_class(cls):
@@ -230,6 +231,8 @@ def run(job, seed):
         return run_context(acc, P, _parser.parse_rule)
     if job['space'] == 'alternating':
         return run_alternating(acc, P, _parser.parse_rule)
+    if job['space'] == 'scope-toggle':
+        return run_scope_toggle(acc, P, _parser.parse_rule)
     cls = job['cls']
     w, enf = build(P, _parser.parse_rule, cls)
     lg = logging.getLogger('oslo_policy')
@@ -432,6 +435,59 @@ def run_alternating(acc, P, parse_rule):
     finally:
         w.destroy()
     acc.sample('alternating', {'rules': [str(r) for r in rules]})
+    return acc.result()
+
+
+def run_scope_toggle(acc, P, parse_rule):
+    """[oslo_policy] enforce_scope is changed on a LIVE enforcer between
+    calls (operators flip it at run time): every sequence of 3 settings, a
+    caller of the wrong scope, by name / authorize / check object, do_raise
+    off, on, on with a custom exception.  Each call follows the setting in
+    force when it is made."""
+    for seq in itertools.product((False, True), repeat=3):
+        for how, api in (('name', 'enforce'), ('name', 'authorize'),
+                         ('object', 'enforce')):
+            w = world.FileWorld()
+            try:
+                conf = world.new_conf(w.root, enforce_scope=seq[0],
+                                      policy_dirs=[])
+                enf = P.Enforcer(conf)
+                enf.register_default(P.RuleDefault(
+                    'svc:sys', 'role:r', scope_types=['system']))
+                enf.load_rules()
+                if how == 'object':
+                    rule = parse_rule('role:r')
+                    rule.scope_types = ['system']
+                else:
+                    rule = 'svc:sys'
+                acc.case('scope-toggle', True)
+                for step, on in enumerate(seq):
+                    conf.set_override('enforce_scope', on,
+                                      group='oslo_policy')
+                    for do_raise, exc in ((False, None), (True, None),
+                                          (True, MyExc)):
+                        acc.ev()
+                        r = call(P, enf, api, rule, {}, make_creds('dict'),
+                                 do_raise, exc, (), {})
+                        if on:
+                            ok = r[0] == 'scope' if do_raise else \
+                                (r[0] == 'ret' and r[1] is False)
+                        else:
+                            ok = r[0] == 'ret' and r[1] is True
+                        if not ok:
+                            acc.violation(
+                                'scope-toggle|%s|%s|now=%s' % (how, api, on),
+                                'call %d of the settings %r (enforce_scope '
+                                'now %s, do_raise=%s, exc=%s) gave %r' %
+                                (step + 1, seq, on, do_raise,
+                                 exc and exc.__name__, r),
+                                {'sequence': list(seq), 'how': how,
+                                 'api': api}, 'gated' if on else 'allow', r,
+                                'scope-toggle')
+                    acc.outcome('toggle-%s' % on)
+            finally:
+                w.destroy()
+    acc.sample('scope-toggle', {'rule': 'svc:sys role:r scope system'})
     return acc.result()
 
 
